@@ -114,6 +114,15 @@ Pieces == {<<102, 110>>,
 RECURSIVE Flat(_)
 Flat(s) == IF s = <<>> THEN <<>> ELSE Head(s) \o Flat(Tail(s))
 PieceInputs == {Flat(s) : s \in UNION {[1..n -> Pieces] : n \in 1..MaxPieces}}
+\* multi-line strings as a family of their own: two or three `\\` lines, each with its own indentation, content and line end (LF,
+\* CRLF, or nothing at the end of the text) - so also lines of one string that end differently -, then a tail
+MlIndent == {<<>>, <<32, 32>>}
+MlBody == {<<>>, <<97>>, <<233>>, <<97, 34>>}
+MlEol == {<<10>>, <<13, 10>>}
+MlLine == {i \o <<92, 92>> \o b \o e : i \in MlIndent, b \in MlBody, e \in MlEol}
+MlLast == MlLine \cup {i \o <<92, 92>> \o b : i \in MlIndent, b \in MlBody}
+MlTail == {<<>>, <<120>>, <<10>>, <<59, 10>>, <<233>>}
+MlInputs == {a \o b \o t : a \in MlLine, b \in MlLast, t \in MlTail} \cup {a \o b \o c \o t : a \in MlLine, b \in MlLine, c \in MlLast, t \in {<<>>, <<59>>}}
 \* texts handed over by the driver (corpus files, mutated files): one JSON record {cps: [..]} per line
 FileInputs == LET recs == ndJsonDeserialize(IOEnv.LEXTEXTS) IN {recs[i].cps : i \in DOMAIN recs}
 =============================================================================
